@@ -36,10 +36,12 @@ import (
 	"reflect"
 	"sort"
 	"strings"
+	"syscall"
 	"testing"
 	"time"
 
 	"github.com/tucats/ego/internal/cli/settings"
+	"github.com/tucats/ego/internal/cli/ui"
 	"github.com/tucats/ego/internal/defs"
 	egodsns "github.com/tucats/ego/internal/dsns"
 	"github.com/tucats/ego/internal/router"
@@ -103,6 +105,15 @@ type c44Canary struct {
 	value string
 }
 
+// after names the step that put the secret into the store, when known (makes a witness self-contained).
+func (e *c44Env) after(c c44Canary) string {
+	if o := e.origins[c.value]; o != "" {
+		return "   [preceded by: " + o + "]"
+	}
+
+	return ""
+}
+
 type c44Env struct {
 	t        *testing.T
 	r        *router.Router
@@ -117,6 +128,13 @@ type c44Env struct {
 	distinct map[string]bool
 	backend  string
 	token    string // bearer token obtained from /services/admin/logon
+	asUser   string // when set, requests carry these Basic credentials instead of the administrator's
+	asPass   string
+	sent     []string // request bodies sent while the log is being captured (to recognise their verbatim trace)
+	logging  bool
+	dsnCache []c44Canary // stored DSN passwords; dropped by every request that is not a GET
+	dsnOK    bool
+	origins  map[string]string // secret value -> the step that stored it
 }
 
 func c44Token(rnd *rand.Rand, tag string) string {
@@ -160,13 +178,21 @@ func (e *c44Env) canaries() []c44Canary {
 		}
 	}
 
-	if names, err := egodsns.DSNService.ListDSNS(0, c44Admin); err == nil {
-		for name := range names {
-			if d, err := egodsns.DSNService.ReadDSN(0, c44Admin, name, true); err == nil && len(d.Password) >= 8 && d.Password != c44Elided {
-				res = append(res, c44Canary{"dsn-password", "stored (encrypted) password of DSN " + name, d.Password})
+	if !e.dsnOK {
+		e.dsnCache = nil
+
+		if names, err := egodsns.DSNService.ListDSNS(0, c44Admin); err == nil {
+			for name := range names {
+				if d, err := egodsns.DSNService.ReadDSN(0, c44Admin, name, true); err == nil && len(d.Password) >= 8 && d.Password != c44Elided {
+					e.dsnCache = append(e.dsnCache, c44Canary{"dsn-password", "stored password (as it is at rest) of DSN " + name, d.Password})
+				}
 			}
+
+			e.dsnOK = true
 		}
 	}
+
+	res = append(res, e.dsnCache...)
 
 	for _, n := range settings.Keys() {
 		if c44IsSecretName(n) {
@@ -191,8 +217,18 @@ func (e *c44Env) do(method, path string, body []byte, accept string) c44Resp {
 	if strings.HasPrefix(accept, "bearer;") {
 		accept = strings.TrimPrefix(accept, "bearer;")
 		req.Header.Set("Authorization", "Bearer "+e.token)
+	} else if e.asUser != "" {
+		req.SetBasicAuth(e.asUser, e.asPass)
 	} else {
 		req.SetBasicAuth(c44Admin, c44AdminPass)
+	}
+
+	if method != http.MethodGet {
+		e.dsnOK = false
+	}
+
+	if e.logging && len(body) >= 8 {
+		e.sent = append(e.sent, string(body))
 	}
 
 	if accept == "" {
@@ -281,7 +317,7 @@ func (e *c44Env) scan(class, input string, resp c44Resp, cans []c44Canary) bool 
 					e.fails.Write(verifh.Failure{
 						Class: cls,
 						What:  "response contains the " + c.what + " (" + form + " form)",
-						Input: "backend=" + e.backend + " " + input,
+						Input: "backend=" + e.backend + " " + input + e.after(c),
 						Got:   fmt.Sprintf("status %d …%s…", resp.code, resp.text[lo:hi]),
 						Want:  "no occurrence of the stored secret",
 					})
@@ -494,6 +530,394 @@ func (e *c44Env) probeSetting(name string, keep bool) {
 	}
 }
 
+// ---------------------------------------------------------------------------------------------------
+// DSN endpoints: data source names of EVERY provider spelling, each with a non-empty secret that is a
+// unique marker, then every reply of every DSN endpoint (create, get, list, update, permission grant,
+// permission listing, delete; as the administrator and as a non-administrator who may list) and every
+// line the server logs meanwhile is scanned for every marker and for the value that is at rest.
+// The oracle does not know which providers the server encrypts, normalises or considers credential-free.
+
+// c44Providers: the spellings POST /dsns accepts (it validates none of them): the two it documents, the
+// deprecated alias it rewrites, case variants it does not rewrite, other database names, nothing at all.
+var c44Providers = []string{"sqlite", "sqlite3", "postgres", "SQLite", "SQLITE3", "Sqlite", "sqlite ", "postgresql", "Postgres", "mysql", ""}
+
+func c44SqliteLike(provider string) bool {
+	return strings.Contains(c44Lower(provider), "sqlite")
+}
+
+type c44DSN struct {
+	name     string
+	provider string
+	via      string // "post": POST /dsns/ ; "store": written into the store (what another server version, the CLI or a restore left there)
+	marker   string
+	exists   string // non-empty: already created by this request earlier in the run
+}
+
+func (e *c44Env) marker(tag string) string {
+	m := c44Token(e.rnd, tag)
+
+	// some secrets need escaping in JSON, URLs or SQL; the marker part stays searchable on its own as well
+	if e.rnd.Intn(3) == 0 {
+		m += []string{"!", "&x=1", " sp", "\"q", "'--", "/é", "%41"}[e.rnd.Intn(7)]
+	}
+
+	return m
+}
+
+func (e *c44Env) dsnCall(routesOut *verifh.Writer, method, path, body, who string) c44Resp {
+	var b []byte
+	if body != "" {
+		b = []byte(body)
+	}
+
+	t0 := time.Now()
+	resp := e.do(method, path, b, "")
+	t1 := time.Now()
+	e.scan("dsn-endpoint", method+" "+path+" "+body+who, resp, e.canaries())
+	t2 := time.Now()
+	e.stats.Inc("dsn_requests")
+	snippet := ""
+	if resp.code >= 400 && len(resp.body) > 0 {
+		snippet = string(resp.body[:min(len(resp.body), 200)])
+	}
+
+	routesOut.Write(map[string]any{"backend": e.backend, "method": method, "path": path, "status": resp.code, "phase": "dsn", "error": snippet,
+		"ms": t1.Sub(t0).Milliseconds(), "scan_ms": t2.Sub(t1).Milliseconds()})
+
+	return resp
+}
+
+func (e *c44Env) dsnPhase(routesOut *verifh.Writer, existing []c44DSN) []c44DSN {
+	// ---- capture what the server logs during this phase
+	logName := filepath.Join(e.dir, "c44-server-"+e.backend+".log")
+	logClasses := []int{ui.RestLogger, ui.AuthLogger, ui.DBLogger, ui.SQLLogger, ui.TableLogger, ui.ServerLogger, ui.RouteLogger, ui.InfoLogger, ui.UserLogger}
+	oldFormat := ui.LogFormat
+
+	if e.backend == "db" {
+		ui.LogFormat = ui.JSONFormat
+	} else {
+		ui.LogFormat = ui.TextFormat
+	}
+
+	logErr := ui.OpenLogFile(logName, false)
+	if logErr == nil {
+		for _, c := range logClasses {
+			ui.Active(c, true)
+		}
+
+		e.logging = true
+	}
+
+	// ---- the data source names
+	plan := []c44DSN{}
+	seq := 0
+
+	add := func(provider, via string) {
+		seq++
+		plan = append(plan, c44DSN{name: fmt.Sprintf("c44d%s%02d", e.backend[:1], seq), provider: provider, via: via, marker: e.marker("D")})
+	}
+
+	// every spelling through the create endpoint (a spelling the server refuses costs nothing; one it accepts and
+	// encrypts costs a key derivation)
+	// (quick tier: the postgres DSN the script above created through the endpoint stands in for a new one)
+	for _, p := range c44Providers {
+		if p == "postgres" && !verifh.Thorough() && len(existing) > 0 {
+			continue
+		}
+
+		add(p, "post")
+	}
+
+	plan = append(plan, existing...)
+
+	// records that were not written by this server's create handler: plain text at rest, provider spelled as given
+	for _, p := range []string{"sqlite", "sqlite3", "postgres", "", "SQLite"} {
+		add(p, "store")
+	}
+
+	for i := 0; i < verifh.N(2, 24); i++ {
+		via := "post"
+		if e.rnd.Intn(3) == 0 {
+			via = "store"
+		}
+
+		p := c44Providers[e.rnd.Intn(len(c44Providers))]
+		if via == "post" && !verifh.Thorough() {
+			p = c44Providers[e.rnd.Intn(2)] // quick tier: the extra creations are of the kinds that need no key derivation
+		}
+
+		add(p, via)
+	}
+
+	e.rnd.Shuffle(len(plan), func(i, j int) { plan[i], plan[j] = plan[j], plan[i] })
+
+	lists := []string{"/dsns/", "/dsns/?limit=100", "/dsns/?start=0&limit=1000", "/dsns"}
+	made := []c44DSN{}
+
+	for _, d := range plan {
+		restricted := e.rnd.Intn(2) == 0
+		secured := e.rnd.Intn(4) == 0 && !c44SqliteLike(d.provider)
+		rec := defs.DSN{Name: d.name, Provider: d.provider, Database: "db" + d.name, Username: "u" + d.name, Password: d.marker,
+			Restricted: restricted, Secured: secured}
+
+		if c44SqliteLike(d.provider) {
+			rec.Database = filepath.Join(e.dir, d.name+".db")
+			if e.rnd.Intn(2) == 0 {
+				rec.Username = ""
+			}
+		} else {
+			rec.Host = "127.0.0.1"
+			rec.Port = 80 + e.rnd.Intn(9000)
+		}
+
+		body, _ := json.Marshal(rec)
+		origin := "POST /dsns/ " + string(body)
+
+		if d.via == "store" {
+			origin = "DSNService.WriteDSN(" + string(body) + ")"
+		}
+
+		if d.exists != "" {
+			origin = d.exists
+		}
+
+		// the marker is a secret from here on, whatever becomes of the request
+		if d.exists == "" {
+			e.fixed = append(e.fixed, c44Canary{"dsn-password", fmt.Sprintf("password given to DSN %s (provider %q, %s)", d.name, d.provider, d.via), d.marker})
+		}
+		e.origins[d.marker] = origin
+
+		if d.exists != "" {
+			e.origins[d.marker] = d.exists
+		} else if d.via == "post" {
+			resp := e.dsnCall(routesOut, "POST", "/dsns/", string(body), "")
+
+			if resp.code/100 != 2 {
+				e.stats.Inc("dsn_create_refused")
+
+				continue
+			}
+		} else {
+			if err := egodsns.DSNService.WriteDSN(0, c44Admin, rec); err != nil {
+				e.t.Fatalf("WriteDSN %s: %v", d.name, err)
+			}
+
+			e.dsnOK = false
+		}
+
+		made = append(made, d)
+		e.stats.Inc("dsn_made_" + d.via)
+
+		if st, err := egodsns.DSNService.ReadDSN(0, c44Admin, d.name, true); err == nil && st.Password != "" {
+			e.stats.Inc(fmt.Sprintf("dsn_with_secret_%s_%q", d.via, d.provider))
+
+			if st.Password == d.marker {
+				e.stats.Inc("dsn_secret_at_rest_plain")
+			} else {
+				e.stats.Inc("dsn_secret_at_rest_transformed")
+			}
+		}
+
+		e.dsnCall(routesOut, "GET", "/dsns/"+d.name, "", "")
+		e.dsnCall(routesOut, "GET", lists[e.rnd.Intn(len(lists))], "", "")
+		e.dsnCall(routesOut, "GET", "/dsns/"+d.name+"/@permissions", "", "")
+
+		// a grant (makes the DSN restricted), the listing of grants, the list seen by a non-administrator
+		who := []string{"c44alice", "c44sql", "c44bob"}[e.rnd.Intn(3)]
+		act := []string{"+" + defs.ReadPriv, "+" + defs.WritePriv, defs.ReadPriv, "+" + defs.AdminPriv, "-" + defs.ReadPriv, "+read"}[e.rnd.Intn(6)]
+		e.dsnCall(routesOut, "POST", "/dsns/@permissions", fmt.Sprintf(`{"dsn":%q,"user":%q,"actions":[%q]}`, d.name, who, act), "")
+		e.dsnCall(routesOut, "GET", "/dsns/"+d.name+"/@permissions", "", "")
+
+		e.asUser, e.asPass = "c44sql", c44AdminPass
+		e.dsnCall(routesOut, "GET", lists[e.rnd.Intn(len(lists))], "", " (as c44sql, who holds ego.sql only)")
+		e.dsnCall(routesOut, "GET", "/dsns/"+d.name, "", " (as c44sql)")
+		e.asUser, e.asPass = "", ""
+
+		// updates: flags (always cheap), a new password (refused for some providers; the refusal is a reply too)
+		flag := []string{`{"restricted":false}`, `{"restricted":true}`, `{"secured":false}`, `{"secured":true}`, `{"restricted":true,"secured":false}`}[e.rnd.Intn(5)]
+		e.dsnCall(routesOut, "PATCH", "/dsns/"+d.name, flag, "")
+
+		// (an accepted password update costs a key derivation: the quick tier sends most of them where a refusal is likely;
+		// the script above updates the password of a postgres DSN in every run)
+		if d.provider == "sqlite" || verifh.Thorough() || e.rnd.Intn(8) == 0 {
+			m2 := e.marker("D")
+			b, _ := json.Marshal(map[string]any{"password": m2})
+			e.fixed = append(e.fixed, c44Canary{"dsn-password", fmt.Sprintf("password sent when updating DSN %s (provider %q)", d.name, d.provider), m2})
+			e.origins[m2] = origin + " ; PATCH /dsns/" + d.name + " " + string(b)
+			e.dsnCall(routesOut, "PATCH", "/dsns/"+d.name, string(b), "")
+		}
+
+		e.dsnCall(routesOut, "GET", lists[e.rnd.Intn(len(lists))], "", "")
+		e.dsnCall(routesOut, "GET", "/dsns/"+d.name, "", "")
+	}
+
+	// every list spelling with everything present, and pages of one
+	for _, l := range lists {
+		e.dsnCall(routesOut, "GET", l, "", "")
+	}
+
+	for i := 0; i <= len(made)+3; i += 1 + e.rnd.Intn(3) {
+		e.dsnCall(routesOut, "GET", fmt.Sprintf("/dsns/?start=%d&limit=%d", i, 1+e.rnd.Intn(3)), "", "")
+	}
+
+	// a creation that collides, a grant that names nobody, a malformed update: error replies are replies
+	if len(made) > 0 {
+		d := made[e.rnd.Intn(len(made))]
+		for k := 0; k < 8 && !verifh.Thorough() && !c44SqliteLike(d.provider); k++ {
+			d = made[e.rnd.Intn(len(made))]
+		}
+
+		b, _ := json.Marshal(defs.DSN{Name: d.name, Provider: d.provider, Database: "x", Port: 5432, Password: d.marker})
+		e.dsnCall(routesOut, "POST", "/dsns/", string(b), "")
+		e.dsnCall(routesOut, "POST", "/dsns/@permissions", fmt.Sprintf(`{"dsn":%q,"user":"","actions":["+read"]}`, d.name), "")
+		e.dsnCall(routesOut, "PATCH", "/dsns/"+d.name, `{"password":`, "")
+	}
+
+	// ---- the log
+	if logErr == nil {
+		for _, c := range logClasses {
+			ui.Active(c, false)
+		}
+
+		e.logging = false
+		_ = ui.SaveLastLog()
+
+		if os.Getenv("VERIF_C44_KEEPLOG") != "" {
+			if b, err := os.ReadFile(logName); err == nil {
+				_ = os.WriteFile(filepath.Join(os.Getenv("VERIF_OUT"), filepath.Base(logName)), b, 0o600)
+			}
+		}
+
+		e.scanLog(logName)
+	} else {
+		e.stats.Inc("log_capture_failed")
+	}
+
+	ui.LogFormat = oldFormat
+
+	return made
+}
+
+// scanLog applies the oracle to the captured log, line by line. A line that carries the verbatim body of a
+// request the harness sent (the REST logger's request trace) is the client's own text and is counted, not judged.
+func (e *c44Env) scanLog(name string) {
+	b, err := os.ReadFile(name)
+	if err != nil {
+		e.stats.Inc("log_capture_failed")
+
+		return
+	}
+
+	echo := map[string]bool{}
+
+	for _, body := range e.sent {
+		echo[body] = true
+
+		if j, err := json.Marshal(body); err == nil && len(j) > 2 {
+			echo[string(j[1:len(j)-1])] = true
+		}
+	}
+
+	e.sent = nil
+
+	// the judged text: every line that is not such a trace
+	var kept strings.Builder
+
+	for _, line := range strings.Split(string(b), "\n") {
+		if line == "" {
+			continue
+		}
+
+		e.stats.Inc("log_lines")
+
+		isEcho := false
+
+		for body := range echo {
+			if strings.Contains(line, body) {
+				isEcho = true
+
+				break
+			}
+		}
+
+		if isEcho {
+			e.stats.Inc("log_request_echo_lines")
+
+			continue
+		}
+
+		kept.WriteString(line)
+		kept.WriteByte('\n')
+	}
+
+	text := kept.String()
+	format := "text"
+
+	if ui.LogFormat == ui.JSONFormat {
+		format = "json"
+	}
+
+	for _, c := range e.canaries() {
+		forms := c44Forms(c.value)
+
+		for _, form := range []string{"raw", "json", "urlquery", "hex", "HEX", "base64", "base64url", "base64raw", "b64rawurl"} {
+			f := forms[form]
+			if len(f) < 8 {
+				continue
+			}
+
+			i := strings.Index(text, f)
+			if i < 0 {
+				continue
+			}
+
+			// the line, and the two before it (the REST logger prints a JSON reply over many lines)
+			lo := strings.LastIndex(text[:i], "\n") + 1
+			hi := i + strings.Index(text[i:], "\n")
+			line := text[lo:hi]
+			ctx := lo
+
+			for k := 0; k < 2 && ctx > 0; k++ {
+				ctx = strings.LastIndex(text[:ctx-1], "\n") + 1
+			}
+
+			if len(line) > 300 {
+				line = line[:300] + "…"
+			}
+
+			e.scan("log", "log line written while the DSN endpoints were exercised (loggers REST AUTH DB SQL TABLE SERVER ROUTE INFO USER active, format "+format+"): "+line,
+				c44Resp{code: 0, text: text[ctx:hi]}, []c44Canary{c})
+
+			break
+		}
+	}
+}
+
+// dsnDeletes: DELETE echoes the record; the list is read again after each of the first few.
+func (e *c44Env) dsnDeletes(routesOut *verifh.Writer, made []c44DSN) {
+	for i, d := range made {
+		if d.exists != "" {
+			continue // deleted by the closing script
+		}
+
+		e.dsnCall(routesOut, "DELETE", "/dsns/"+d.name, "", "")
+
+		if i < 4 {
+			e.dsnCall(routesOut, "GET", "/dsns/", "", "")
+		}
+	}
+}
+
+// c44CPU: processor time (user + system) used by the test process so far.
+func c44CPU() time.Duration {
+	var ru syscall.Rusage
+	if syscall.Getrusage(syscall.RUSAGE_SELF, &ru) != nil {
+		return 0
+	}
+
+	return time.Duration(ru.Utime.Nano() + ru.Stime.Nano())
+}
+
 func c44WriteKey(t *testing.T, path string, rnd *rand.Rand) (canaries []c44Canary) {
 	// a fixed-by-seed P-256 key so that the private scalar is a known canary
 	d := new(big.Int)
@@ -555,7 +979,7 @@ func c44Run(t *testing.T, backend string, salt int64, stats *verifh.Stats, fails
 	dir := t.TempDir()
 	rnd := verifh.Rand(4400 + salt)
 	e := &c44Env{t: t, dir: dir, rnd: rnd, stats: stats, fails: fails, cases: cases, seenFail: map[string]int{},
-		distinct: map[string]bool{}, backend: backend}
+		distinct: map[string]bool{}, backend: backend, origins: map[string]string{}}
 
 	settings.ClearDefaults()
 	settings.CurrentConfiguration = nil
@@ -629,6 +1053,8 @@ func c44Run(t *testing.T, backend string, salt int64, stats *verifh.Stats, fails
 			defs.DSNAdminPermission, defs.CodeRunPermission, "ego.sql", "ego.table.admin"}},
 		{Name: "c44alice", Password: c44Token(rnd, "U"), Permissions: []string{defs.LogonPermission}},
 		{Name: "c44bob", Password: "{" + c44Token(rnd, "U") + "}", Permissions: []string{defs.LogonPermission, "ego.table.read"}},
+		// may list DSNs (ego.sql) but administers nothing
+		{Name: "c44sql", Password: adminHash, Permissions: []string{defs.LogonPermission, "ego.sql"}},
 	}
 
 	if h, err := auth.HashPassword(c44Token(rnd, "P")); err == nil {
@@ -735,13 +1161,21 @@ func c44Run(t *testing.T, backend string, salt int64, stats *verifh.Stats, fails
 	}
 
 	tPhase := time.Now()
+	cPhase := c44CPU()
 	phase := func(name string) {
 		stats.Add("ms_"+name, int(time.Since(tPhase).Milliseconds()))
+		stats.Add("cpu_ms_"+name, int((c44CPU() - cPhase).Milliseconds()))
 		tPhase = time.Now()
+		cPhase = c44CPU()
 	}
 
 	runScript(script)
 	phase("script")
+
+	// ---- DSNs of every provider spelling, every DSN endpoint, the log
+	madeDSNs := e.dsnPhase(routesOut, []c44DSN{{name: "c44made", provider: "postgres", via: "post", marker: dsnPlain2,
+		exists: script[3].method + " " + script[3].path + " " + script[3].body + " ; " + script[4].method + " " + script[4].path + " " + script[4].body}})
+	phase("dsn_endpoints")
 
 	// ---- every GET route, every parameter instantiated from the pool of existing names
 	pools := map[string][]string{
@@ -750,6 +1184,12 @@ func c44Run(t *testing.T, backend string, salt int64, stats *verifh.Stats, fails
 		"dsn":   {"c44pg", "c44lite", "c44made", "C44PG", "nosuch"},
 		"table": {"c44t", "nosuch"},
 		"item":  {"index.html", "dashboard.html", "../users.json", "nosuch"},
+	}
+
+	for i, d := range madeDSNs {
+		if i < 5 && d.exists == "" {
+			pools["dsn"] = append(pools["dsn"], d.name)
+		}
 	}
 	queries := []string{"", "?limit=100", "?start=0&limit=1000"}
 	getRoutes := 0
@@ -900,6 +1340,7 @@ func c44Run(t *testing.T, backend string, salt int64, stats *verifh.Stats, fails
 	}
 
 	// ---- deletes echo the deleted record
+	e.dsnDeletes(routesOut, madeDSNs)
 	runScript([]call{
 		{"DELETE", "/dsns/c44made", "", ""},
 		{"DELETE", "/dsns/c44pg", "", ""},
